@@ -6,8 +6,8 @@
 From Coq Require Import ZArith List Bool.
 From AV Require Import Lib.Bytes.
 From AV Require Lib.RtpX Lib.CodecX Model.SctpWire Model.Rtp Model.Rtcp Model.H264 Model.Vp8 Model.Router Model.Chan
-  Model.SctpRecv.
-From AV Require Proof.SctpWireTotalP Proof.RtpTotalP Proof.RtcpTotalP Proof.RtcpP Proof.H264PBase Proof.Vp8P
+  Model.SctpRecv Model.Dtls.
+From AV Require Proof.DtlsP Proof.SctpWireTotalP Proof.RtpTotalP Proof.RtcpTotalP Proof.RtcpP Proof.H264PBase Proof.Vp8P
   Proof.RouterP Proof.ChanTotalP Proof.SctpDupP Proof.SctpC01P Proof.SctpOnceFwdP.
 Import ListNotations.
 Local Open Scope Z_scope.
@@ -82,6 +82,18 @@ Proof.
   exact (AV.Proof.SctpOnceFwdP.no_assert_all base N Hb HN es _ (AV.Proof.SctpDupP.inv_rinit base N Hb HN) Hes).
 Qed.
 Print Assumptions C05_reassembly_assertion_unreachable.
+
+(* the first thing every datagram meets, RTCDtlsTransport._recv_next: for EVERY datagram -- the
+   empty one included, which used to raise IndexError and close the transport (repaired in /repo) --
+   and every outcome of the SSL object / SRTP session, demultiplexing ends normally or with the
+   ConnectionError the receive loop handles, never with another exception.  The handlers it
+   hands the payload to are the subject of the other theorems / the oracle.  Model.Dtls is tied
+   to the code by C04's correspondence (scripted SSL / SRTP / ICE around the real method, empty
+   datagrams included) and, for this statement, by this check's own `dtls._recv_next` probe. *)
+Theorem C05_dtls_demux_total : forall guard t g,
+  AV.Model.Dtls.recv_next guard t g <> AV.Model.Dtls.RxCrash.
+Proof. exact AV.Proof.DtlsP.recv_next_never_crashes. Qed.
+Print Assumptions C05_dtls_demux_total.
 
 (* PARTIAL.  Proved: every byte-level parser is total and linear-fuelled; the modelled
    message-level handlers named above cannot raise.  NOT proved: dispatch totality of
